@@ -1,6 +1,7 @@
 /- line-protocol handlers for C18 (red-black insert model; CFB validator on real bytes) -/
 import Relic.Model.RedBlack
 import Relic.Spec.Cfb
+import Relic.Driver.C18W
 namespace Relic.Driver.C18
 open Relic Relic.RedBlack
 
@@ -71,6 +72,6 @@ def handle : List String → String
     match fromHex inh with
     | some ib => s!"ok {verdict (Spec.Cfb.validate ib.toArray)}"
     | none => "bad-op"
-  | _ => "bad-op"
+  | ops => Relic.Driver.C18W.handle ops
 
 end Relic.Driver.C18
